@@ -125,6 +125,15 @@ class Func:
         self.parent = f.get('parent')
         self.synthetic = f.get('synthetic', '')
         self._loops = None
+        # calls through a function-typed struct field are named after the field (dyn.<field>) so that ordinals survive unrelated edits
+        defs = {i['name']: i for b in self.blocks for i in b['instrs'] if i.get('name')}
+        for b in self.blocks:
+            for i in b['instrs']:
+                if i['op'] in ('Call', 'Go', 'Defer') and 'callee' in i and i['callee'].get('k') == 'reg':
+                    d = defs.get(i['callee']['name'])
+                    if d and d['op'] == 'UnOp' and d.get('unop') == '*' and d['x'].get('k') == 'reg':
+                        d2 = defs.get(d['x']['name'])
+                        if d2 and d2['op'] == 'FieldAddr': i['dynname'] = 'dyn.' + d2['field']
 
     # ---- CFG ----
     def dominators(self):
